@@ -394,3 +394,22 @@ Theorem neg_wrapping_kernel_spec s a : wf a ->
 Proof. intros W. unfold neg_wrapping_kernel. now rewrite unary_spec. Qed.
 
 End Width.
+
+(* asymmetric extensionality: separate predicates for the left and right values *)
+Lemma spec_rows2_ext2 (P Q : Z -> Prop) f g :
+  (forall a b, P a -> Q b -> f a b = g a b) ->
+  forall l r, rows_in P l -> rows_in Q r -> spec_rows2 f l r = spec_rows2 g l r.
+Proof.
+  intros E. induction l as [|x l IH]; intros [|y r] Hl Hr; try reflexivity.
+  inversion Hl as [|? ? Px Hl']; inversion Hr as [|? ? Py Hr']; subst.
+  cbn [spec_rows2]. rewrite (IH r Hl' Hr').
+  destruct x as [a|], y as [b|]; try reflexivity. now rewrite (E a b Px Py).
+Qed.
+Lemma spec_binary_kernel_ext2 (P Q : Z -> Prop) f g l_s r_s l r :
+  (forall a b, P a -> Q b -> f a b = g a b) -> rows_in P l -> rows_in Q r ->
+  spec_binary_kernel f l_s r_s l r = spec_binary_kernel g l_s r_s l r.
+Proof.
+  intros E Hl Hr. unfold spec_binary_kernel.
+  destruct (negb _); [reflexivity|].
+  apply (spec_rows2_ext2 P Q); [assumption| |]; now apply rows_in_broadcast.
+Qed.
